@@ -45,7 +45,9 @@ def _select(case):
                 # the wrapper as the copula's prototype instance, its candidate list given positionally
                 from copulas.multivariate import GaussianMultivariate
                 proto = Univariate(list(cands))
-                m = GaussianMultivariate(distribution=proto if how.startswith('copula(U') else {'b': proto})
+                # every second copula carries a seed of its own (the seed is about sampling; the marginal configuration is unaffected)
+                seeded = {'random_state': 3} if (len(out) + sum(out)) % 2 else {}
+                m = GaussianMultivariate(distribution=proto if how.startswith('copula(U') else {'b': proto}, **seeded)
                 m.fit(pd.DataFrame({'a': X[::-1] * 2.0 + X, 'b': X.copy()}))
                 u = m.univariates[1]
                 inst = getattr(u, '_instance', u)
@@ -246,6 +248,8 @@ def _dispatch(case):
         forms = [PickyGaussian, 'harness.stubs.PickyGaussian', PickyGaussian()]
         kw = {'distribution': {cols[i - 1]: forms[i % 3] for i in sorted(named)}}
     probs = []
+    if (n + len(named) + len(raises)) % 2:
+        kw['random_state'] = 11        # a copula with a seed of its own
     try:
         m = GaussianMultivariate(**kw)
         m.fit(df)
